@@ -426,6 +426,13 @@ func CreateDB(dbName string) error {
 }
 
 func (rs *RelationService) CreateTable(r *Relation, tableName string) error {
+	// a definition whose catalog rows cannot be stored is refused before
+	// anything is allocated or written: nothing takes a half-written catalog
+	// entry back
+	if err := checkCatalogRows(r, tableName); err != nil {
+		return err
+	}
+
 	// CREATE TABLE changes catalog pages, the cache and the header counters
 	// and then flushes; the periodic flusher must not run in the middle of it
 	rs.fs.lockExclusive()
@@ -1017,4 +1024,39 @@ func (rs *RelationService) MarkDeleted(tableName string, rowID uint32) (WALBatch
 
 func (rs *RelationService) FlushWALBatch(batch WALBatch) error {
 	return rs.wal.flush(batch)
+}
+
+// checkCatalogRows encodes the sys_pages row and the sys_schema rows a new
+// table needs, the way insertPageTable and insertSchemaTable are going to, and
+// returns the first error: a value that does not fit its catalog column or a
+// row over the size limit.
+func checkCatalogRows(r *Relation, tableName string) error {
+	tuples := []Tuple{{
+		Relation: &pageTableSchema,
+		Vals: map[string]interface{}{
+			"table_name":  tableName,
+			"file_offset": int64(0),
+		},
+	}}
+	for _, fd := range r.Fields {
+		tuples = append(tuples, Tuple{
+			Relation: &schemaTableSchema,
+			Vals: map[string]interface{}{
+				"table_name":   tableName,
+				"field_name":   fd.Name,
+				"field_type":   int64(fd.DataType),
+				"field_length": fd.Len,
+			},
+		})
+	}
+	for _, tuple := range tuples {
+		buf, err := tuple.Encode()
+		if err != nil {
+			return err
+		}
+		if err := checkRowSizeLimit(buf.Bytes()); err != nil {
+			return err
+		}
+	}
+	return nil
 }
